@@ -43,22 +43,23 @@ func (s *SolverStats) add(o *SolverStats) {
 }
 
 type Solver struct {
-	cmd       *exec.Cmd
-	in        io.WriteCloser
-	out       *bufio.Reader
-	argv      []string
-	timeoutMs int
-	stats     SolverStats
-	inPath    bool
-	defined   map[int]bool
-	declared  map[string]bool
-	declOrder []string
-	declW     map[string]int
-	buf       strings.Builder
-	dump      io.Writer
-	pathLog   strings.Builder // everything asserted/defined on the current path (for the fallback solver)
-	fallback  []string
-	fbStats   struct{ Calls, Sat, Unsat, Unknown int }
+	cmd         *exec.Cmd
+	in          io.WriteCloser
+	out         *bufio.Reader
+	argv        []string
+	timeoutMs   int
+	stats       SolverStats
+	inPath      bool
+	defined     map[int]bool
+	declared    map[string]bool
+	declOrder   []string
+	declW       map[string]int
+	buf         strings.Builder
+	dump        io.Writer
+	pathLog     strings.Builder // everything asserted/defined on the current path (for the fallback solver)
+	fallback    []string
+	fbStats     struct{ Calls, Sat, Unsat, Unknown int }
+	pathsServed int
 }
 
 func newSolver(argv []string, timeoutMs int) *Solver {
@@ -109,6 +110,13 @@ func (s *Solver) send(txt string) {
 func (s *Solver) beginPath() {
 	if s.inPath {
 		s.endPath()
+	}
+	// z3 keeps memory for definitions made inside popped scopes and slows down over thousands of
+	// paths: a fresh process every so often keeps per-query time flat (start-up is ~100 ms).
+	s.pathsServed++
+	if s.pathsServed%500 == 0 {
+		s.close()
+		s.start()
 	}
 	s.defined = map[int]bool{}
 	s.declared = map[string]bool{}
